@@ -370,6 +370,17 @@ def blockid(w):
                                                                       y.root_hash == rh, y.file_hash == fh))
         if k2 == 'ok':
             w.claim('== agrees', y == x)
+    # == holds IFF all five fields agree: a second id with independent symbolic fields (the solver may make any subset equal)
+    wc2 = w.int('wc2', -(1 << 31), (1 << 31) - 1)
+    shard2 = w.int('shard2', -(1 << 63), (1 << 63) - 1)
+    seqno2 = w.int('seqno2', -(1 << 31), (1 << 31) - 1)
+    rh2, fh2 = w.bytes('rh2', 32), w.bytes('fh2', 32)
+    x2 = T.BlockIdExt(wc2, shard2, seqno2, rh2, fh2)
+    ke, eq = call(lambda: bool(x == x2))
+    same = w.And(wc == wc2, shard == shard2, seqno == seqno2, rh == rh2, fh == fh2)
+    w.claim('== does not raise', ke == 'ok')
+    if ke == 'ok':
+        w.claim('x == y iff workchain, shard, seqno, root_hash and file_hash all agree', same if eq else w.Not(same))
     d = x.to_dict()
     k3, z = call(T.BlockIdExt.from_dict, d)
     w.claim('from_dict(to_dict(x)) == x', k3 == 'ok' and w.And(z.workchain == wc, z.shard == shard, z.seqno == seqno,
